@@ -55,7 +55,10 @@ fn run_case(line: &str, out: &mut impl Write) {
     let fallback = t.next().to_string();
     // a trailing `R`: the original is ended by Termination::report() instead of verify()
     let report = fallback.contains('R');
-    let fallback: String = fallback.chars().filter(|c| *c != 'R').collect();
+    // a trailing `F`: FREE-RUNNING threads (no scheduler; started together behind a barrier): a search aid for races that need a
+    // thread to be preempted at a point the hooks do not announce; only order-insensitive results are compared
+    let free = fallback.contains('F');
+    let fallback: String = fallback.chars().filter(|c| *c != 'R' && *c != 'F').collect();
     let shared = fallback.ends_with('S');
     let partial = fallback.trim_end_matches('S') == "partial";
     let terms = caseparse::parse_terms(&mut t);
@@ -99,8 +102,12 @@ fn run_case(line: &str, out: &mut impl Write) {
     };
     writeln!(out, "new:ok").unwrap();
 
-    scheduler::begin(nth);
+    if !free {
+        scheduler::begin(nth);
+    }
+    let barrier = std::sync::Barrier::new(nth);
     let outcomes: Vec<Vec<String>> = std::thread::scope(|s| {
+        let barrier = &barrier;
         let handles: Vec<_> = threads
             .iter()
             .enumerate()
@@ -109,7 +116,11 @@ fn run_case(line: &str, out: &mut impl Write) {
                 let orig_ref = &original;
                 s.spawn(move || {
                     let u: &Unimock = owned.as_ref().unwrap_or(orig_ref);
-                    scheduler::enter(tid);
+                    if free {
+                        barrier.wait();
+                    } else {
+                        scheduler::enter(tid);
+                    }
                     let mut res = vec![];
                     for (m, a) in calls {
                         let r = catch_unwind(AssertUnwindSafe(|| do_call(u, *m, *a)));
@@ -124,16 +135,20 @@ fn run_case(line: &str, out: &mut impl Write) {
                             Err(p) => format!("P:{}", esc(&panic_text(p))),
                         });
                     }
-                    scheduler::leave(tid);
+                    if !free {
+                        scheduler::leave(tid);
+                    }
                     drop(owned);
                     res
                 })
             })
             .collect();
-        scheduler::drive(&schedule, nth);
+        if !free {
+            scheduler::drive(&schedule, nth);
+        }
         handles.into_iter().map(|h| h.join().expect("worker")).collect()
     });
-    let trace = scheduler::finish();
+    let trace = if free { vec![] } else { scheduler::finish() };
     for (tid, op, addr) in trace {
         writeln!(out, "t{tid} {op:?} {addr}").unwrap();
     }
